@@ -694,7 +694,7 @@ Qed.
 (** * Before the fix: didOpen; didChange deadlocks (sanity: the model can express the failure) *)
 
 Definition old_trace : list label :=
-  repeat LMain 9 ++ repeat LMain 3 ++ repeat (LWorker 0) 6.
+  repeat LMain 9 ++ repeat LMain 3 ++ repeat (LWorker 0) 7.
 
 Theorem old_deadlocks pol (p : P) :
   exists tr s, run pol tr (init (script_old [INotif 0 [p]; INotif 0 [p]])) = Some s /\ stuck pol s /\ ~ final s.
